@@ -18,6 +18,7 @@ pub static SCENARIO: Scenario = Scenario {
     gen,
     judge: |run, obs| oracle::judge("C14", run, obs),
     assumptions: &["numbers are limited to those with an exact short decimal form (k/2^j), as the property states", "keys are non-empty (the builder documents that it ignores empty keys)"],
+    exhaustive: &[],
 };
 
 fn gen(ctx: &GenCtx, i: u64) -> Option<Run> {
